@@ -14,40 +14,40 @@ import (
 // ---------------------------------------------------------------- values
 
 type Val struct {
-	T    *Term
-	Cls  *Term // float class: nil = finite; else Int term 0 finite,1 +inf,2 -inf,3 nan
-	Lit  bool  // untyped numeric literal
-	GoT  types.Type
-	Loc  types.Object // address of this local variable (pointer-to-local)
-	LocHeap *heapBase // address of a scalar / pointer field of an object (&g.extra)
-	Mag  float64      // log2 bound on magnitude for exact-mode floats; <0 unknown
-	Fn   *ast.FuncLit // closure literal
-	FnObj types.Object // func-typed parameter (callback)
-	Tuple []*Val
-	ArrOwner *types.Named // array-of-struct field of the object at T: elements are sub-objects
-	ArrField *types.Var
+	T          *Term
+	Cls        *Term // float class: nil = finite; else Int term 0 finite,1 +inf,2 -inf,3 nan
+	Lit        bool  // untyped numeric literal
+	GoT        types.Type
+	Loc        types.Object // address of this local variable (pointer-to-local)
+	LocHeap    *heapBase    // address of a scalar / pointer field of an object (&g.extra)
+	Mag        float64      // log2 bound on magnitude for exact-mode floats; <0 unknown
+	Fn         *ast.FuncLit // closure literal
+	FnObj      types.Object // func-typed parameter (callback)
+	Tuple      []*Val
+	ArrOwner   *types.Named // array-of-struct field of the object at T: elements are sub-objects
+	ArrField   *types.Var
 	FreshSlice bool // slice made by make() in this activation and not yet shared
-	Inexact bool // derived from a rounded quotient / nudge: later arithmetic is covered by A-DIV / A-NUDGE, not by exactness
+	Inexact    bool // derived from a rounded quotient / nudge: later arithmetic is covered by A-DIV / A-NUDGE, not by exactness
 }
 
 func tv(t *Term, gt types.Type) *Val { return &Val{T: t, GoT: gt, Mag: -1} }
 
 type Obligation struct {
-	Name    string
-	Kind    string // post, inv.init, inv.preserve, pre, safe, dec, cover, lemma, proto
-	Func    string
-	Guard   *Term
-	Goal    *Term
-	NDecl   int // number of declarations visible
-	Unfold  int
-	Props   []string
-	Src     string
-	Cover   bool // satisfiable-guard check (expects sat)
-	Inputs  []ModelVar // input variables for replay
-	ex      *Exec
-	Static  string // statically decided failure reason (no SMT)
+	Name                    string
+	Kind                    string // post, inv.init, inv.preserve, pre, safe, dec, cover, lemma, proto
+	Func                    string
+	Guard                   *Term
+	Goal                    *Term
+	NDecl                   int // number of declarations visible
+	Unfold                  int
+	Props                   []string
+	Src                     string
+	Cover                   bool       // satisfiable-guard check (expects sat)
+	Inputs                  []ModelVar // input variables for replay
+	ex                      *Exec
+	Static                  string // statically decided failure reason (no SMT)
 	fullSMT, weakSMT, ufSMT string
-	Reveal  []string
+	Reveal                  []string
 }
 
 type ModelVar struct {
@@ -87,31 +87,32 @@ type Flow struct {
 }
 
 type Exec struct {
-	w      *World
-	fi     *FuncInfo
-	fc     *FuncContract
-	info   *types.Info
-	decls  []Decl
-	obls   []*Obligation
-	entry  *State // entry values of params
-	arith  string
-	loopN  int
-	callN  int
-	retN   int
-	safeN  int
-	coverN int
-	skippedPaths []string
-	skipped int // obligations not generated because of an `only` clause
-	results []*types.Var
-	inputs []ModelVar
-	notes  []string // inexact ops etc.
-	assumedCalls map[string]bool
-	unfold int
-	iterState bool // function has iter protocol
-	heapTouched  map[string]*Term
-	heapMayWrite map[string]*Term
-	allocates    bool
-	curLoopUnfold int
+	stmtHintActive map[int]int
+	w              *World
+	fi             *FuncInfo
+	fc             *FuncContract
+	info           *types.Info
+	decls          []Decl
+	obls           []*Obligation
+	entry          *State // entry values of params
+	arith          string
+	loopN          int
+	callN          int
+	retN           int
+	safeN          int
+	coverN         int
+	skippedPaths   []string
+	skipped        int // obligations not generated because of an `only` clause
+	results        []*types.Var
+	inputs         []ModelVar
+	notes          []string // inexact ops etc.
+	assumedCalls   map[string]bool
+	unfold         int
+	iterState      bool // function has iter protocol
+	heapTouched    map[string]*Term
+	heapMayWrite   map[string]*Term
+	allocates      bool
+	curLoopUnfold  int
 }
 
 const exactBound = 1 << 20
@@ -1217,6 +1218,34 @@ func (ex *Exec) execBlock(st *State, stmts []ast.Stmt) *Flow {
 }
 
 func (ex *Exec) execStmt(st *State, s ast.Stmt) (fl *Flow) {
+	if ex.fc != nil && len(ex.fc.StmtHints) > 0 {
+		if _, isBlock := s.(*ast.BlockStmt); !isBlock {
+			p := ex.w.Fset.Position(s.Pos())
+			for k := range ex.fc.StmtHints {
+				h := &ex.fc.StmtHints[k]
+				if h.Line != p.Line || !strings.HasSuffix(p.Filename, h.File) {
+					continue
+				}
+				// the outermost statement starting on the line takes the hint; nested statements on the same line do not repeat it
+				if ex.stmtHintActive[k] > 0 {
+					continue
+				}
+				h.used = true
+				if h.Use != nil {
+					ex.applyLemma(st, h.Use, nil)
+				} else {
+					g := ex.specBool(st, h.Assert.E, nil)
+					ex.oblige(st, "assert", fmt.Sprintf("assert.stmt%d.%s", h.Line, clauseName(h.Assert, k)), g, h.Assert.Src)
+					ex.assume(st, g)
+				}
+				if ex.stmtHintActive == nil {
+					ex.stmtHintActive = map[int]int{}
+				}
+				ex.stmtHintActive[k]++
+				defer func(k int) { ex.stmtHintActive[k]-- }(k)
+			}
+		}
+	}
 	if ex.fc != nil && len(ex.fc.Skips) > 0 {
 		defer func() {
 			if r := recover(); r != nil {
@@ -1827,9 +1856,10 @@ func (ex *Exec) execFor(st *State, s *ast.ForStmt) *Flow {
 }
 
 // execLoop: generic invariant-based loop rule.
-//  pre: invariants hold on entry (inv.init)
-//  havoc modified vars; assume invariants (+cond) ; run body; post; invariants hold (inv.preserve)
-//  exit: havoc'd state with invariants and !cond, merged with break states
+//
+//	pre: invariants hold on entry (inv.init)
+//	havoc modified vars; assume invariants (+cond) ; run body; post; invariants hold (inv.preserve)
+//	exit: havoc'd state with invariants and !cond, merged with break states
 func (ex *Exec) execLoop(st *State, n int, node ast.Node, cond ast.Expr, body *ast.BlockStmt, post ast.Stmt, pre func(*State)) *Flow {
 	ls := ex.loopSpec(n)
 	mod := ex.assignedVars(node)
